@@ -54,7 +54,7 @@ def build(spec: dict) -> Node:  # noqa: C901, PLR0911, PLR0912
     if t == "Divider":
         return Node(spec, "flow", urwid.Divider(spec.get("ch", "-"), top=spec.get("top", 0), bottom=spec.get("bottom", 0)))
     if t == "ProgressBar":
-        return Node(spec, "flow", urwid.ProgressBar("pn", "pc", current=spec.get("cur", 30), done=100))
+        return Node(spec, "flow", urwid.ProgressBar("pn", "pc", current=spec.get("cur", 30), done=spec.get("done", 100), satt=spec.get("satt")))
     if t == "SolidFill":
         return Node(spec, "box", urwid.SolidFill(spec.get("ch", "#")))
     kids = [build(k) for k in spec.get("kids", [])]
@@ -247,7 +247,11 @@ class _Run:
                 w.set_state(not w.state, do_callback=False)
             return "checkbox"
         if t == "ProgressBar":
-            w.set_completion((op.get("t", 0) * 17) % 101)
+            if m % 2:
+                # a small step: the percentage text may stay the same while the filled part moves
+                w.set_completion(w.current + [1, -1, 2, 0.5, 3, -3, 4, -2][op.get("t", 0) % 8])
+            else:
+                w.set_completion((op.get("t", 0) * 17) % 101 * w.done / 100)
             return "progress"
         if t == "Divider":
             return "none"
@@ -468,7 +472,7 @@ class CacheEngine(Engine):
     prop = P
     name = "cache"
     level = "exploration"
-    tiers = {"quick": 15000, "thorough": 600000}
+    tiers = {"quick": 40000, "thorough": 1200000}
     rule = (
         "seeded widget trees (<= 12 widgets, depth <= 4, from Text/Edit/Button/CheckBox/Divider/ProgressBar/SolidFill/Pile/Columns/"
         "GridFlow/Padding/AttrMap/LineBox/WidgetPlaceholder/BoxAdapter/Filler/ListBox/Frame/Overlay/Scrollable/ScrollBar) driven "
@@ -507,7 +511,8 @@ class CacheEngine(Engine):
                     return {"w": "CheckBox", "label": txt()[:10], "state": rng.random() < 0.5}
                 if t == "Divider":
                     return {"w": "Divider", "ch": rng.choice(["-", " ", "="]), "top": rng.randint(0, 1)}
-                return {"w": "ProgressBar", "cur": rng.randint(0, 100)}
+                done = rng.choice([100, 100, 1000, 1000, 7])
+                return {"w": "ProgressBar", "cur": rng.randint(0, done), "done": done, "satt": rng.choice([None, "ps"] if done > 100 else [None, None, "ps"])}
             if r < 0.5:
                 return {"w": "Pile", "kids": [self.gen_tree(rng, "flow", depth - 1, budget) for _ in range(rng.randint(1, 3))]}
             if r < 0.62:
